@@ -1,4 +1,4 @@
 From Coq Require Import Extraction ExtrOcamlBasic ZArith.
 From PP Require Import Wrap.CacheDefs.
 Extraction "model.ml" Z.of_N Z.to_N Z.of_nat Z.to_nat N.of_nat N.to_nat N.add N.mul Z.opp
-  feeder sent collector collector_needs cache_run.
+  feeder sent collector collector_needs cache_run cache_run_gen.
